@@ -445,6 +445,7 @@ func checkC15(p *Prog, r *Report) {
 	}
 	checkC15Bits(p, r, rBits, fns) /* first: the framing and table rules use its verdict on the encoder's group code */
 	checkC15Frame(p, r, rFrame, fns)
+	checkC15ErrorLine(p, r, r.Rule("error-location", "the line number a decode error carries counts every line passed: a counter kept by hand is stepped on every way round the line loop"), fns)
 	checkC15Bounds(p, r, r.Rule("length-bounds", "MaxEncodedLen and MaxDecodedLen are never below what AppendEncode / AppendDecode append, for every input length"), fns)
 	checkC15Tables(p, r, rTab, fns)
 }
@@ -1225,4 +1226,67 @@ func isCountingLoop(h *ssa.BasicBlock) bool {
 		})
 	}
 	return false
+}
+
+// checkC15ErrorLine: what is stored into DecodeError.Line.  The range index of
+// the line loop counts by construction; a counter kept by hand must be
+// stepped on every way back to the head of its loop (a "continue" which
+// skips the step makes every later error point at the wrong line).
+func checkC15ErrorLine(p *Prog, r *Report, ru *Rule, fnsMap map[*ssa.Function]*ssa.Function) {
+	var fns []*ssa.Function
+	for f, top := range fnsMap {
+		if f == top {
+			fns = append(fns, f)
+		}
+	}
+	sort.Slice(fns, func(i, j int) bool { return fns[i].String() < fns[j].String() })
+	lineF := p.Field(uuPkg, "DecodeError", "Line")
+	if nil == lineF {
+		return
+	}
+	n := 0
+	for _, top := range fns {
+		for _, f := range withAnons(top) {
+			eachInstr(f, func(i ssa.Instruction) {
+				st, ok := i.(*ssa.Store)
+				if !ok {
+					return
+				}
+				if fv, _ := fieldAddrOf(st.Addr); fv != lineF {
+					return
+				}
+				n++
+				c := fmt.Sprintf("%s:DecodeError.Line#%d", fnName(f), n)
+				v := stripConv(resolveCell(resolveFree(stripConv(st.Val, true))), true)
+				ph, isPhi := v.(*ssa.Phi)
+				if !isPhi {
+					ru.OK(c, posOf(st), "not a counter kept by hand")
+					return
+				}
+				h := ph.Block()
+				bad := false
+				steps := 0
+				for k, e := range ph.Edges {
+					if !h.Dominates(h.Preds[k]) {
+						continue /* way in */
+					}
+					if e == ssa.Value(ph) {
+						bad = true
+						continue
+					}
+					if b, isB := e.(*ssa.BinOp); isB && token.ADD == b.Op && b.X == ssa.Value(ph) {
+						steps++
+					}
+				}
+				switch {
+				case 0 == steps:
+					ru.OK(c, posOf(st), "not a counter of a loop")
+				case bad:
+					ru.Bad(c, posOf(st), "the line counter is not stepped on every way round the line loop (a line can be passed without being counted): errors after such a line name the wrong line")
+				default:
+					ru.OK(c, posOf(st), "the line counter is stepped on every way round the loop")
+				}
+			})
+		}
+	}
 }
